@@ -2,15 +2,21 @@
   Executable model of the fee distributor's epoch ledger
   (`contracts/liquidity_hub/fee_distributor/src/{commands,contract,state}.rs`).
 
-  Assumption (stated in every theorem that uses it): ONE distribution asset over the whole history
-  (native `uwhale` in the harness).  `Vec<Asset>` fields of an `Epoch` are therefore `Option Nat`:
-  `none` = the empty vector, `some x` = `[Asset{distribution asset, x}]`.  The distinction matters:
-  `query_claimable` filters on `available.is_empty()` (an expired epoch has `available = []`, an epoch
-  emptied by claims has `available = [0]`).
+  MULTI-ASSET ledgers.  `config.distribution_asset` is part of the state and the owner may switch it at
+  any time (`UpdateConfig { distribution_asset }`, op `setDist`); the collector forwards in whatever the
+  distribution asset is when the epoch is created, and the unclaimed fees of the epoch leaving the grace
+  window are merged into the new epoch whatever their asset.  The `Vec<Asset>` fields of an `Epoch` are
+  therefore association lists `(asset index, amount)` IN VECTOR ORDER (`Ledger`), exactly as the Rust
+  keeps them; `[]` = the empty vector.  Order and emptiness matter:
+   * `query_claimable` filters on `available.is_empty()` (an expired epoch has `available = []`, an
+     epoch emptied by claims has `available = [(a, 0)]`);
+   * `claim` walks `epoch.total` in order and creates `epoch.claimed` from the FIRST asset it pays;
+     rewards in any other asset are then added "to the matching entry" of `claimed` — there is none, so
+     they are NOT recorded (see `claimFee`; finding `C09-claimed-second-asset`).
 
   What is outside the model is a parameter:
-   * `newEpoch … inflow` – `inflow` is the `epoch.total` that the collector's `ForwardFeesResponse`
-     carried (and the amount it transferred); any value.
+   * `newEpoch … inflow` – `inflow` is the amount (in the current distribution asset) that the collector's
+     `ForwardFeesResponse` carried as `epoch.total` and transferred (`none` = nothing to forward); any value.
    * `claim … view ans` – `view` is the lair's `Bonded{address}` answer (`none` = no bonded assets,
      `some fb` = `first_bonded_epoch_id`), `ans id` the lair's `Weight{address, epoch.start_time,
      epoch.global_index}` answer for epoch `id` (`share` atomics, or the query failed / panicked).
@@ -20,25 +26,51 @@ import WW.Cw.Arith
 import WW.Gen.Constants
 namespace WW.Distributor
 
+/-- a `Vec<Asset>`: `(asset index, amount)` in vector order -/
+abbrev Ledger := List (Nat × Nat)
+
 /-- `fee_distributor::Epoch` (without `global_index`, which only travels to the lair) -/
 structure Epoch where
   id : Nat
   start : Nat
-  total : Option Nat
-  avail : Option Nat
-  claimed : Option Nat
+  total : Ledger
+  avail : Ledger
+  claimed : Ledger
 deriving Repr, DecidableEq
 
-/-- amount of a ≤1-element asset vector -/
+/-- `x` if the entry's asset `k` is the one we look at (`a`), else nothing -/
+def sel (k a x : Nat) : Nat := if k = a then x else 0
+
+/-- amount of asset `a` on a ledger (sum over its entries for `a`; there is at most one, `Inv`) -/
+def amtOf (a : Nat) : Ledger → Nat
+  | [] => 0
+  | (k, x) :: r => sel k a x + amtOf a r
+
+def keys (l : Ledger) : List Nat := l.map (·.1)
+
+/-- `.iter().find(|x| x.info == k).is_some()` -/
+def hasKey (k : Nat) : Ledger → Bool
+  | [] => false
+  | (j, _) :: r => if j = k then true else hasKey k r
+
+/-- amount of an `Option Nat` (a ≤1-element vector in the current distribution asset) -/
 def amt : Option Nat → Nat
   | some x => x
   | none => 0
+
+/-- the collector's `epoch.total`: nothing, or one entry in the distribution asset -/
+def inflowLedger (dist : Nat) : Option Nat → Ledger
+  | some x => [(dist, x)]
+  | none => []
 
 structure Cfg where
   genesis : Nat
   duration : Nat
   owner : Nat
 deriving Repr, DecidableEq
+
+def addAt (f : Nat → Nat) (i v : Nat) : Nat → Nat := fun j => if j = i then f j + v else f j
+def subAt (f : Nat → Nat) (i v : Nat) : Nat → Nat := fun j => if j = i then f j - v else f j
 
 structure St where
   /-- `EPOCHS`, newest first (`range(.., Descending)`) -/
@@ -47,11 +79,12 @@ structure St where
   last : List (Nat × Nat)
   /-- `config.grace_period` -/
   grace : Nat
-  /-- bank balance of the distribution asset -/
-  bal : Nat
-deriving Repr, DecidableEq
+  /-- bank balance per asset -/
+  bal : Nat → Nat
+  /-- `config.distribution_asset` -/
+  dist : Nat
 
-def St.init (grace : Nat) : St := { epochs := [], last := [], grace := grace, bal := 0 }
+def St.init (grace dist : Nat) : St := { epochs := [], last := [], grace := grace, bal := fun _ => 0, dist := dist }
 
 /-- answer of the bonding contract to one `Weight` query -/
 inductive LairAns where
@@ -68,19 +101,20 @@ def setLast (u v : Nat) : List (Nat × Nat) → List (Nat × Nat)
   | [] => [(u, v)]
   | (k, w) :: r => if k = u then (k, v) :: r else (k, w) :: setLast u v r
 
-def sumAvail : List Epoch → Nat
+/-- sum over the epochs of `available` / `claimed` in asset `a` -/
+def sumAvail (a : Nat) : List Epoch → Nat
   | [] => 0
-  | e :: es => amt e.avail + sumAvail es
+  | e :: es => amtOf a e.avail + sumAvail a es
 
-def sumClaimed : List Epoch → Nat
+def sumClaimed (a : Nat) : List Epoch → Nat
   | [] => 0
-  | e :: es => amt e.claimed + sumClaimed es
+  | e :: es => amtOf a e.claimed + sumClaimed a es
 
 /-- `get_current_epoch`: the newest epoch or `Epoch::default()` -/
 def current (s : St) : Epoch :=
   match s.epochs with
   | e :: _ => e
-  | [] => { id := 0, start := 0, total := none, avail := none, claimed := none }
+  | [] => { id := 0, start := 0, total := [], avail := [], claimed := [] }
 
 /-- the id and start time `create_new_epoch` gives the next epoch, with its three ways to fail -/
 def nextEpoch (cfg : Cfg) (s : St) (now : Nat) : Res (Nat × Nat) :=
@@ -97,29 +131,49 @@ def nextEpoch (cfg : Cfg) (s : St) (now : Nat) : Res (Nat × Nat) :=
     else .panic
 
 /-- `get_expiring_epoch` + the write-back in `reply`: the epoch at position `k` of the descending
-    list (k = grace−1, the oldest of the `grace` newest) gets `available = []`; returns what it held.
-    Position beyond the list = nothing is expiring yet. -/
-def takeOut : Nat → List Epoch → List Epoch × Option Nat
-  | _, [] => ([], none)
-  | 0, e :: es => ({ e with avail := none } :: es, e.avail)
+    list (k = grace−1, the oldest of the `grace` newest) gets `available = []`; returns what it held
+    (ALL assets of it).  Position beyond the list = nothing is expiring yet. -/
+def takeOut : Nat → List Epoch → List Epoch × Ledger
+  | _, [] => ([], [])
+  | 0, e :: es => ({ e with avail := [] } :: es, e.avail)
   | k + 1, e :: es => let r := takeOut k es; (e :: r.1, r.2)
 
-/-- `asset::aggregate_assets(new_epoch.total, unclaimed_fees)` on ≤1-element vectors -/
-def aggOpt : Option Nat → Option Nat → Res (Option Nat)
-  | a, none => .ok a
-  | none, some b => .ok (some b)
-  | some a, some b => if a + b ≤ U128MAX then .ok (some (a + b)) else .err
+/-! ### `asset::aggregate_assets` -/
+
+/-- `existing.amount.checked_add(x)` on the FIRST entry for `k` -/
+def bumpFirst (k x : Nat) : Ledger → Res Ledger
+  | [] => .ok []
+  | (j, y) :: r =>
+    if j = k then (if y + x ≤ U128MAX then .ok ((j, y + x) :: r) else .err)
+    else match bumpFirst k x r with
+      | .ok r' => .ok ((j, y) :: r')
+      | .err => .err
+      | .panic => .panic
+
+/-- one round of the loop over `other_assets`: add to the first entry of the same asset, else push -/
+def aggOne (l : Ledger) (k x : Nat) : Res Ledger :=
+  if hasKey k l = true then bumpFirst k x l else .ok (l ++ [(k, x)])
+
+/-- `asset::aggregate_assets(l, m)` -/
+def agg (l : Ledger) : Ledger → Res Ledger
+  | [] => .ok l
+  | (k, x) :: r => match aggOne l k x with
+    | .ok l' => agg l' r
+    | .err => .err
+    | .panic => .panic
 
 /-- the distributor's `reply` to the collector's answer: `inflow` = `epoch.total` set by the collector
-    (`none` when it had nothing to forward) — that amount has arrived in the contract's balance. -/
+    (`none` when it had nothing to forward), in the CURRENT distribution asset — that amount has
+    arrived in the contract's balance.  The new epoch's total is the inflow aggregated with everything
+    the expiring epoch still had available, in every asset. -/
 def receiveEpoch (s : St) (id start : Nat) (inflow : Option Nat) : Res St :=
   if s.grace = 0 then .err   -- unreachable: grace_period ≥ 1 is validated at instantiate and on update
   else
     let r := takeOut (s.grace - 1) s.epochs
-    match aggOpt inflow r.2 with
+    match agg (inflowLedger s.dist inflow) r.2 with
     | .ok tot =>
-      .ok { s with epochs := { id := id, start := start, total := tot, avail := tot, claimed := none } :: r.1,
-                   bal := s.bal + amt inflow }
+      .ok { s with epochs := { id := id, start := start, total := tot, avail := tot, claimed := [] } :: r.1,
+                   bal := addAt s.bal s.dist (amt inflow) }
     | .err => .err
     | .panic => .panic
 
@@ -137,7 +191,7 @@ def claimBound (s : St) (u : Nat) (view : Option Nat) : Option Nat :=
   | some lc => some lc
   | none => view
 
-def isClaimable (b : Nat) (e : Epoch) : Bool := decide (b < e.id) && e.avail.isSome
+def isClaimable (b : Nat) (e : Epoch) : Bool := decide (b < e.id) && !e.avail.isEmpty
 
 /-- ids of `query_claimable`: the `n` newest epochs, above the bound, with a non-empty `available` -/
 def claimableIds (b : Nat) : Nat → List Epoch → List Nat
@@ -150,48 +204,103 @@ def claimable (s : St) (u : Nat) (view : Option Nat) : List Nat :=
   | some b => claimableIds b s.grace s.epochs
   | none => []
 
-/-- body of the `claim` loop for one epoch: new epoch record and the reward -/
-def claimEpoch (e : Epoch) (a : LairAns) : Res (Epoch × Nat) :=
+/-! ### `claim` -/
+
+/-- `for available_fee in epoch.available.iter_mut() { if info == k { amount.checked_sub(r)? } }` -/
+def subAll (k r : Nat) : Ledger → Res Ledger
+  | [] => .ok []
+  | (j, y) :: rest =>
+    if j = k then
+      if r ≤ y then
+        match subAll k r rest with
+        | .ok t => .ok ((j, y - r) :: t)
+        | .err => .err
+        | .panic => .panic
+      else .err
+    else
+      match subAll k r rest with
+      | .ok t => .ok ((j, y) :: t)
+      | .err => .err
+      | .panic => .panic
+
+/-- `for claimed_fee in epoch.claimed.iter_mut() { if info == k { amount.checked_add(r)? } }` -/
+def addAll (k r : Nat) : Ledger → Res Ledger
+  | [] => .ok []
+  | (j, y) :: rest =>
+    if j = k then
+      if y + r ≤ U128MAX then
+        match addAll k r rest with
+        | .ok t => .ok ((j, y + r) :: t)
+        | .err => .err
+        | .panic => .panic
+      else .err
+    else
+      match addAll k r rest with
+      | .ok t => .ok ((j, y) :: t)
+      | .err => .err
+      | .panic => .panic
+
+/-- the new `epoch.claimed`: created from the first reward paid, afterwards only entries that exist are
+    increased — a reward in an asset that has no entry is silently NOT recorded -/
+def recordClaimed (k r : Nat) : Ledger → Res Ledger
+  | [] => .ok [(k, r)]
+  | c :: cs => addAll k r (c :: cs)
+
+/-- body of `for fee in epoch.total.iter()` for the entry `(k, t)` of `total`; `sh` = the address's
+    share, `av` / `cl` the epoch's `available` / `claimed` so far, `acc` = `claimable_fees` so far -/
+def claimFee (sh k t : Nat) (av cl acc : Ledger) : Res (Ledger × Ledger × Ledger) :=
+  if t * sh / E18 > U128MAX then .err                          -- checked_mul_floor
+  else if t * sh / E18 = 0 then .ok (av, cl, acc)              -- nothing to claim
+  else if hasKey k av = false then .err                        -- "Invalid fee"
+  else
+    -- In the Rust the `InvalidReward` result of the soundness check is discarded (`let _ = ….map(..)
+    -- .ok_or_else(..)?` unwraps only the outer `Result`); the transaction still fails, at
+    -- `available_fee.amount.checked_sub(reward)?` below. Same observable: Err.
+    match aggOne acc k (t * sh / E18) with                     -- aggregate_assets(claimable_fees, [reward])
+    | .ok acc' =>
+      match subAll k (t * sh / E18) av with
+      | .ok av' =>
+        match recordClaimed k (t * sh / E18) cl with
+        | .ok cl' => .ok (av', cl', acc')
+        | .err => .err
+        | .panic => .panic
+      | .err => .err
+      | .panic => .panic
+    | .err => .err
+    | .panic => .panic
+
+/-- the loop over `epoch.total` -/
+def claimFees (sh : Nat) : Ledger → Ledger → Ledger → Ledger → Res (Ledger × Ledger × Ledger)
+  | [], av, cl, acc => .ok (av, cl, acc)
+  | (k, t) :: rest, av, cl, acc =>
+    match claimFee sh k t av cl acc with
+    | .ok (av', cl', acc') => claimFees sh rest av' cl' acc'
+    | .err => .err
+    | .panic => .panic
+
+/-- body of the `claim` loop for one epoch: new epoch record and the rewards so far -/
+def claimEpoch (e : Epoch) (a : LairAns) (acc : Ledger) : Res (Epoch × Ledger) :=
   match a with
   | .err => .err
   | .panic => .panic
   | .share sh =>
-    match e.total with
-    | none => .ok (e, 0)                                       -- `for fee in epoch.total` runs zero times
-    | some t =>
-      if t * sh / E18 > U128MAX then .err                      -- checked_mul_floor
-      else if t * sh / E18 = 0 then .ok (e, 0)                 -- nothing to claim
-      else
-        match e.avail with
-        | none => .err                                         -- "Invalid fee"
-        | some av =>
-          -- In the Rust the `InvalidReward` result of the soundness check is discarded (`let _ = ….map(..)
-          -- .ok_or_else(..)?` unwraps only the outer `Result`); the transaction still fails, at
-          -- `available_fee.amount.checked_sub(reward)?` two statements later. Same observable: Err.
-          if t * sh / E18 > av then .err
-          else
-            match e.claimed with
-            | none => .ok ({ e with avail := some (av - t * sh / E18), claimed := some (t * sh / E18) }, t * sh / E18)
-            | some c =>
-              if c + t * sh / E18 ≤ U128MAX then
-                .ok ({ e with avail := some (av - t * sh / E18), claimed := some (c + t * sh / E18) }, t * sh / E18)
-              else .err
+    match claimFees sh e.total e.avail e.claimed acc with
+    | .ok (av', cl', acc') => .ok ({ e with avail := av', claimed := cl' }, acc')
+    | .err => .err
+    | .panic => .panic
 
-/-- the `claim` loop over the window (the `n` newest epochs), newest first; `acc` = rewards so far
-    (`aggregate_assets`, checked) -/
-def claimWalk (ans : Nat → LairAns) (b : Nat) : Nat → List Epoch → Nat → Res (List Epoch × Nat)
+/-- the `claim` loop over the window (the `n` newest epochs), newest first; `acc` = `claimable_fees` -/
+def claimWalk (ans : Nat → LairAns) (b : Nat) : Nat → List Epoch → Ledger → Res (List Epoch × Ledger)
   | 0, es, acc => .ok (es, acc)
   | _, [], acc => .ok ([], acc)
   | n + 1, e :: es, acc =>
     if isClaimable b e then
-      match claimEpoch e (ans e.id) with
-      | .ok (e', r) =>
-        if acc + r ≤ U128MAX then
-          match claimWalk ans b n es (acc + r) with
-          | .ok (es', t) => .ok (e' :: es', t)
-          | .err => .err
-          | .panic => .panic
-        else .err
+      match claimEpoch e (ans e.id) acc with
+      | .ok (e', acc') =>
+        match claimWalk ans b n es acc' with
+        | .ok (es', t) => .ok (e' :: es', t)
+        | .err => .err
+        | .panic => .panic
       | .err => .err
       | .panic => .panic
     else
@@ -200,19 +309,25 @@ def claimWalk (ans : Nat → LairAns) (b : Nat) : Nat → List Epoch → Nat →
       | .err => .err
       | .panic => .panic
 
-/-- `Claim {}` by `u`; returns the new state and the amount sent to `u` -/
-def claim (s : St) (u : Nat) (view : Option Nat) (ans : Nat → LairAns) : Res (St × Nat) :=
+/-- the bank sends, one per claimed asset, in order; any of them failing fails the transaction -/
+def payAll : Ledger → (Nat → Nat) → Res (Nat → Nat)
+  | [], b => .ok b
+  | (k, x) :: r, b => if x ≤ b k then payAll r (subAt b k x) else .err
+
+/-- `Claim {}` by `u`; returns the new state and what was sent to `u`, per asset -/
+def claim (s : St) (u : Nat) (view : Option Nat) (ans : Nat → LairAns) : Res (St × Ledger) :=
   match claimBound s u view with
   | none => .err                                               -- NothingToClaim
   | some b =>
     match claimableIds b s.grace s.epochs with
     | [] => .err                                               -- NothingToClaim
     | top :: _ =>
-      match claimWalk ans b s.grace s.epochs 0 with
+      match claimWalk ans b s.grace s.epochs [] with
       | .ok (es', paid) =>
-        if paid ≤ s.bal then                                   -- bank send
-          .ok ({ s with epochs := es', last := setLast u top s.last, bal := s.bal - paid }, paid)
-        else .err
+        match payAll paid s.bal with                            -- bank sends
+        | .ok bal' => .ok ({ s with epochs := es', last := setLast u top s.last, bal := bal' }, paid)
+        | .err => .err
+        | .panic => .panic
       | .err => .err
       | .panic => .panic
 
@@ -223,15 +338,22 @@ def updateGrace (cfg : Cfg) (s : St) (sender g : Nat) : Res St :=
   else if g < s.grace then .err
   else .ok { s with grace := g }
 
-/-- somebody sends distribution-asset tokens to the contract -/
-def gift (s : St) (a : Nat) : St := { s with bal := s.bal + a }
+/-- `UpdateConfig { distribution_asset }`: owner only, any asset, effective immediately; no ledger and
+    no balance is touched -/
+def setDist (cfg : Cfg) (s : St) (sender a : Nat) : Res St :=
+  if sender ≠ cfg.owner then .err
+  else .ok { s with dist := a }
+
+/-- somebody sends tokens of asset `a` to the contract -/
+def gift (s : St) (a x : Nat) : St := { s with bal := addAt s.bal a x }
 
 /-- operations of the ledger (the history alphabet of C09) -/
 inductive Op where
   | newEpoch (now : Nat) (inflow : Option Nat)
   | claim (u : Nat) (view : Option Nat) (ans : Nat → LairAns)
   | grace (sender g : Nat)
-  | gift (a : Nat)
+  | gift (asset x : Nat)
+  | setDist (sender asset : Nat)
 
 def step (cfg : Cfg) (s : St) : Op → Res St
   | .newEpoch now inflow => newEpoch cfg s now inflow
@@ -240,7 +362,8 @@ def step (cfg : Cfg) (s : St) : Op → Res St
     | .err => .err
     | .panic => .panic
   | .grace sender g => updateGrace cfg s sender g
-  | .gift a => .ok (gift s a)
+  | .gift a x => .ok (gift s a x)
+  | .setDist sender a => setDist cfg s sender a
 
 /-- fold a history; failed operations leave the state unchanged -/
 def reach (cfg : Cfg) (s : St) : List Op → St
